@@ -21,6 +21,7 @@ def step (w : W) (toks : List String) : W × String :=
   | "remote" :: "inc" :: a :: d :: _ => ({ w with hist := w.hist ++ [.mergedInc a.toNat! d.toInt!] }, "ok")
   | ["remote", "create", l] => ({ w with hist := w.hist ++ [.mergedCreate l] }, "ok")
   | ["remote", _] => (w, "ok")
+  | ["remote", _, "burst"] => (w, "ok")
   | ["shared", _] => (w, "ok")
   | ["ack", "inc", a, d, o] => ({ w with hist := w.hist ++ [.inc a.toNat! d.toInt! (outcomeOf o)] }, "ok")
   | ["ack", "set", a, v, o] => ({ w with hist := w.hist ++ [.set a.toNat! v (outcomeOf o)] }, "ok")
